@@ -70,6 +70,16 @@ def finish(pid, tier, seed, results, t0, explanation, trusted=None):
     """Write evidence, print verdict lines, return the exit code."""
     findings = load_findings()
     viol, known, brokenl = [], [], []
+    if any(r.engine == 'sqlsym' for r in results):
+        # translator validation of E4: its SQL semantics and catalogue are compared with a real SQLite on every run
+        from sqlsym import validate
+        for r in results:
+            if r.engine == 'sqlsym':
+                validate.ensure(r)
+    from . import cross
+    cx = cross.flush()
+    if cx and cx.get('disagree') and results:
+        results[0].broken('solver disagreement (z3 vs cvc5) on ' + '; '.join(f'{k}: z3 {a}, cvc5 {b} ({f})' for k, a, b, f in cx['disagree'][:5]))
     for r in results:
         if r.verdict == BROKEN:
             brokenl.append(r)
@@ -107,11 +117,14 @@ def finish(pid, tier, seed, results, t0, explanation, trusted=None):
         obligation_results=[r.to_json() for r in results],
         exhaustive=False,
     )
+    if cx:
+        cov['second_solver'] = dict(solver='cvc5', **{k: v for k, v in cx.items() if k != 'disagree'}, disagreements=len(cx.get('disagree', [])))
     ev = dict(property_id=pid, tier=tier, seed=seed, level='other', coverage=cov,
               assumptions=sorted({a for r in results for a in r.assumptions}),
               wall_s=round(time.time() - t0, 2), violations=len(viol))
-    os.makedirs(os.path.join(VERIF, 'evidence'), exist_ok=True)
-    with open(os.path.join(VERIF, 'evidence', pid + '.json'), 'w') as fh:
+    evdir = os.environ.get('VERIF_EVIDENCE_DIR') or os.path.join(VERIF, 'evidence')   # override used by the seeded-change matrix only
+    os.makedirs(evdir, exist_ok=True)
+    with open(os.path.join(evdir, pid + '.json'), 'w') as fh:
         json.dump(ev, fh, indent=1, default=str)
     for r in results:
         print(f'[{pid}-{r.oid}] {r.engine:7s} {r.verdict:8s} queries={r.queries} paths={r.paths} cases={r.cases} '
@@ -125,7 +138,7 @@ def finish(pid, tier, seed, results, t0, explanation, trusted=None):
     for r in brokenl:
         print(f'BROKEN-CHECK property={pid} obligation={r.oid}: {"; ".join(r.notes)[:600]}')
     for r, f in confirmed:
-        rp = f.get('replay') or write_replay(pid, r, f)
+        rp = write_replay(pid, r, f)
         print(f'VIOLATION property={pid} replay={rp}')
         print(f'      obligation={r.oid} key={f["key"]} {f["what"]}')
     if confirmed:
@@ -140,11 +153,20 @@ def finish(pid, tier, seed, results, t0, explanation, trusted=None):
 
 
 def write_replay(pid, r, f):
+    """one self-describing counterexample file per (property, obligation, key); `./check <pid> --replay <file>` re-runs the obligation"""
     d = os.path.join(VERIF, 'replays', 'out', pid)
     os.makedirs(d, exist_ok=True)
     p = os.path.join(d, f'{r.oid}-{re.sub(r"[^A-Za-z0-9_.-]", "_", f["key"])}.json')
+    body = dict(property=pid, obligation=r.oid, engine=r.engine, title=r.title, key=f['key'], what=f['what'],
+                rerun=f'./check {pid} --replay {p}', scenario=f.get('scenario'), detail=f.get('detail'))
+    src = f.get('replay')
+    if src and os.path.exists(src) and os.path.abspath(src) != os.path.abspath(p):
+        try:
+            body['counterexample'] = json.load(open(src))
+        except Exception:
+            body['counterexample'] = open(src, errors='replace').read()[-20000:]
     with open(p, 'w') as fh:
-        json.dump(dict(property=pid, obligation=r.oid, **f), fh, indent=1, default=str)
+        json.dump(body, fh, indent=1, default=str)
     return p
 
 
